@@ -1007,7 +1007,7 @@ func runC20(c *ev.Ctx) {
 		cases = append(cases, c20Case{S: pv[2], N: pv[1], PrevN: pv[0], PrevS: pv[2], Out: outs[i%len(outs)], Pre: outs[i%len(outs)] == "pre", Accept: pv[1] == 20000 || pv[1] == 1000000, CPUs: []int{0, 1, 2}[i%3]})
 	}
 	if c.Thorough() {
-		for i := 0; i < 40; i++ {
+		for i := 0; i < 240; i++ {
 			cases = append(cases, c20Case{S: r.Range(1, 400), N: 8 * r.Range(1, 4000), Out: outs[r.Intn(len(outs))], CPUs: []int{0, 1, 2, 3}[r.Intn(4)], Procs: []int{0, 1, 2, 16}[r.Intn(4)], Race: i%4 == 0, Strace: haveStrace && i%5 == 0})
 		}
 		cases = append(cases, c20Case{S: 20, N: 1000000, Out: "m", Accept: true})
